@@ -1,4 +1,6 @@
 import Orca.Lemmas.Ops
+import Orca.Gen.ApiOutline
+import Orca.Model.ApiOutlineSpec
 import Orca.Lemmas.Preserve
 /-!
 # C09 — deletion removes exactly the deleted entity
@@ -67,3 +69,12 @@ theorem c09_after_any_history (s0 : St) (h0 : StInv s0) (ops : List Op) (hn : No
   · exact c09_output_has_no_deleted _ _ _ h.m.spaceInv
 
 end Orca.Edit
+
+/-- **The tie to the source (regenerated on every run).** The control-and-call skeletons of the functions this property rests on:
+    the three deletion calls are what M2's deletions were transcribed from. A step moved, an early exit, guard, call or assignment added or removed breaks this obligation; renaming, comments and
+    formatting do not. -/
+theorem c09_deletion_code_reviewed :
+    Orca.Gen.ApiOutline.delete_func = Orca.ApiOutlineSpec.delete_func
+    ∧ Orca.Gen.ApiOutline.delete_global = Orca.ApiOutlineSpec.delete_global
+    ∧ Orca.Gen.ApiOutline.delete_memory = Orca.ApiOutlineSpec.delete_memory :=
+  ⟨rfl, rfl, rfl⟩
